@@ -1660,14 +1660,18 @@ def prove(machine, hyps, goal, timeout_ms=60000):
             return "proved", None
     except Exception:
         pass
-    sol = z3.Solver()
-    sol.set("timeout", timeout_ms)
-    sol.add(*machine.assumes)
-    sol.add(*hyps)
-    sol.add(z3.Not(g))
-    r = sol.check()
-    if r == z3.unsat:
-        return "proved", None
-    if r == z3.sat:
-        return "cex", sol.model()
-    return "unknown", sol.reason_unknown()
+    reason = None
+    for attempt, seed in enumerate((0, 7)):
+        sol = z3.Solver()
+        sol.set("timeout", timeout_ms * (attempt + 1))
+        sol.set("random_seed", seed)
+        sol.add(*machine.assumes)
+        sol.add(*hyps)
+        sol.add(z3.Not(g))
+        r = sol.check()
+        if r == z3.unsat:
+            return "proved", None
+        if r == z3.sat:
+            return "cex", sol.model()
+        reason = sol.reason_unknown()
+    return "unknown", reason
